@@ -129,8 +129,8 @@ def _oz(x):
     return "None" if x is None else "(Some %d)" % x
 
 
-def gen_tables():
-    mods = load_tables(force=True)
+def emit(mods, outdir, label_path, label_mod, modpath, prefix, obligation):
+    """Write label file + one Coq file per module; returns the module identifiers."""
     labels = {}
     for m in mods:
         for it in m["items"]:
@@ -139,15 +139,15 @@ def gen_tables():
     txt = "(* GENERATED from /repo by tools/gen_tables.py - do not edit *)\nFrom Coq Require Import List String.\nImport ListNotations.\nOpen Scope string_scope.\n"
     for ls, i in sorted(labels.items(), key=lambda kv: kv[1]):
         txt += "Definition lbl_%d : list string := [%s].\n" % (i, "; ".join(vf.cstr(s) for s in ls))
-    vf.write_if_changed(os.path.join(vf.GEN, "Labels.v"), txt)
-    tdir = os.path.join(vf.GEN, "Tables")
-    os.makedirs(tdir, exist_ok=True)
+    vf.write_if_changed(label_path, txt)
+    os.makedirs(outdir, exist_ok=True)
     wanted = set()
+    sl = lambda xs: "[" + "; ".join(vf.cstr(x) for x in xs) + "]"
     for m in mods:
-        ident = coq_ident(m["stem"])
+        ident = prefix + coq_ident(m["stem"])[2:]
         wanted.add(ident + ".v")
         t = "(* GENERATED from /repo (geckolib/driver/packs/%s.py) by tools/gen_tables.py - do not edit *)\n" % m["stem"]
-        t += "From Coq Require Import ZArith List String Bool.\nRequire Import GV.Model.Accessor GV.Model.TableWf GV.Gen.Labels.\nImport ListNotations.\nOpen Scope string_scope. Open Scope Z_scope.\n"
+        t += "From Coq Require Import ZArith List String Bool.\nRequire Import GV.Model.Accessor GV.Model.TableWf %s.\nImport ListNotations.\nOpen Scope string_scope. Open Scope Z_scope.\n" % label_mod
         t += "Definition items : list titem := [\n"
         rows = []
         for it in m["items"]:
@@ -157,21 +157,26 @@ def gen_tables():
                 _oz(it["size"]), _oz(it["maxitems"]), vf.cbool(it["rw"] is not None), vf.cbool(it["temp"]),
                 it["length"], vf.cbool(it["two"]), _oz(it["mask"])))
         t += ";\n".join(rows) + "\n].\n"
-        sl = lambda xs: "[" + "; ".join(vf.cstr(x) for x in xs) + "]"
         t += "Definition table : tmodule := mkM %s %s %d %s %d %s %d %d %s %s %s %s items.\n" % (
             vf.cstr(m["stem"]), m["kind"], m["version"], vf.cstr(m["pack_name"]), m["pack_type"], vf.cstr(m["revision"]),
             m["begin"], m["end"], sl(m["outputs"]), sl(m["devices"]), sl(m["demands"]), sl(m["errors"]))
-        t += "Lemma ok : module_ok table = true.\nProof. vm_compute. reflexivity. Qed.\n"
-        vf.write_if_changed(os.path.join(tdir, ident + ".v"), t)
-    for fn in os.listdir(tdir):
-        if fn.endswith(".v") and fn not in wanted:
-            os.remove(os.path.join(tdir, fn))
+        if obligation:
+            t += "Lemma ok : module_ok table = true.\nProof. vm_compute. reflexivity. Qed.\n"
+        vf.write_if_changed(os.path.join(outdir, ident + ".v"), t)
+    for fn in os.listdir(outdir):
+        if fn.endswith(".v") and fn.startswith(prefix) and fn not in wanted:
+            os.remove(os.path.join(outdir, fn))
             for ext in (".vo", ".vok", ".vos", ".glob"):
                 try:
-                    os.remove(os.path.join(tdir, fn[:-2] + ext))
+                    os.remove(os.path.join(outdir, fn[:-2] + ext))
                 except FileNotFoundError:
                     pass
-    idents = [coq_ident(m["stem"]) for m in mods]
+    return [prefix + coq_ident(m["stem"])[2:] for m in mods]
+
+
+def gen_tables():
+    mods = load_tables(force=True)
+    idents = emit(mods, os.path.join(vf.GEN, "Tables"), os.path.join(vf.GEN, "Labels.v"), "GV.Gen.Labels", "GV.Gen.Tables", "T_", True)
     a = "(* GENERATED by tools/gen_tables.py - do not edit *)\nFrom Coq Require Import List String Bool.\nRequire Import GV.Model.Accessor GV.Model.TableWf.\n"
     for i in idents:
         a += "Require GV.Gen.Tables.%s.\n" % i
@@ -182,7 +187,47 @@ def gen_tables():
         a += "  rewrite %s.ok.\n" % i
     a += "  reflexivity.\nQed.\n"
     vf.write_if_changed(os.path.join(vf.GEN, "AllTables.v"), a)
+    gen_pincheck(idents)
     return mods
+
+
+def gen_pinned():
+    """Run once at the audited commit: writes the committed coq/Pinned/*.v."""
+    mods = load_tables(force=True)
+    pdir = os.path.join(vf.COQ, "Pinned")
+    emit(mods, pdir, os.path.join(pdir, "PLabels.v"), "GV.Pinned.PLabels", "GV.Pinned", "P_", False)
+    import json
+    with open(os.path.join(pdir, "layout.json"), "w") as f:
+        json.dump({m["stem"]: layout_of(m) for m in mods}, f, separators=(",", ":"), sort_keys=True)
+
+
+def layout_of(m):
+    """The published layout of a module: what C18 says must never change."""
+    return {"version": m["version"], "pack_type": m["pack_type"], "begin": m["begin"], "end": m["end"],
+            "items": {it["tag"]: [it["type"], it["pos"], it["length"], it["bitpos"], it["mask"], it["items"], it["rw"] is not None, it["temp"]]
+                      for it in m["items"]}}
+
+
+def gen_pincheck(current_idents):
+    """Gen/PinCheck.v: every pinned module must exist in the current tree with an identical layout."""
+    pdir = os.path.join(vf.COQ, "Pinned")
+    pinned = sorted(fn[2:-2] for fn in os.listdir(pdir) if fn.startswith("P_") and fn.endswith(".v"))
+    cur = {i[2:] for i in current_idents}
+    t = "(* GENERATED by tools/gen_tables.py - do not edit *)\nFrom Coq Require Import List String Bool.\nRequire Import GV.Model.Accessor GV.Model.TableWf GV.Gen.AllTables.\n"
+    for s in pinned:
+        t += "Require GV.Pinned.P_%s.\n" % s
+    t += "Import ListNotations.\n"
+    t += "Definition pinned_tables : list tmodule := [\n" + ";\n".join("  GV.Pinned.P_%s.table" % s for s in pinned) + "\n].\n"
+    t += "Definition find_module (file : string) : option tmodule := find (fun m => String.eqb (m_file m) file) all_tables.\n"
+    t += "Definition pin_ok (p : tmodule) : bool := match find_module (m_file p) with Some c => layout_eqb p c | None => false end.\n"
+    for s in pinned:
+        t += "Lemma pin_%s : pin_ok GV.Pinned.P_%s.table = true.\nProof. vm_compute. reflexivity. Qed.\n" % (s, s)
+    t += "Lemma all_pinned_ok : forallb pin_ok pinned_tables = true.\nProof.\n  unfold pinned_tables. cbn [forallb].\n"
+    for s in pinned:
+        t += "  rewrite pin_%s.\n" % s
+    t += "  reflexivity.\nQed.\n"
+    vf.write_if_changed(os.path.join(vf.GEN, "PinCheck.v"), t)
+    return pinned
 
 
 if __name__ == "__main__":
